@@ -136,6 +136,15 @@ def triples():
                            ['release_all'], settle(0.4), ['sample']]
             out.append(S(steps, dict(family='triple', first='finish', gate=hook, second='close', third=api3,
                                      point=f'finishing@{hook}+{api3}', who='other', expect_complete=False)))
+    # a reset held, a run queued behind it, then close from a third task (the close must wait for
+    # that run and still end in 'closed')
+    for hook in ('on_change_script', 'on_initialize_run'):
+        for runapi in ('run', 'run_and_continue'):
+            pre = START + [['hold', hook], ['call', 'A', 'reset', {'statement': 'B'}], settle()]
+            steps = pre + [['call', 'B', runapi], settle(0.2), ['call', 'C', 'close'], settle(0.2), ['release_all'], settle(0.5),
+                           ['child', 'return'], settle(0.5), ['sample']]
+            out.append(S(steps, dict(family='triple', first='reset', gate=hook, second=runapi, third='close',
+                                     point=f'reset@{hook}+{runapi}-queued', who='other')))
     # a reset held, close queued behind it, then a run queued behind both
     for hook in ('on_change_script', 'on_initialize_run'):
         pre = START + [['hold', hook], ['call', 'A', 'reset', {'statement': 'B'}], settle()]
@@ -157,6 +166,26 @@ def relay_order():
             steps += [['call', 'B', ending], settle(0.5)]
         steps += [['release_all'], settle(0.5), ['sample']]
         out.append(S(steps, dict(family='relay-order', outcome=ending, expect_complete=False), config={'answer': 'next'}))
+    return out
+
+
+def numbering():
+    """histories of reset (with every kind of option, including restarting the numbering at the value
+    already in effect) and run; C14's oracle checks each reset's own re-initialisation"""
+    out = []
+    seqs = [
+        [{'run_no_start_from': 1}],
+        [{'run_no_start_from': 7}, {'run_no_start_from': 7}],
+        [{'statement': 'B', 'run_no_start_from': 1}, {'statement': 'B'}, {'run_no_start_from': 2}],
+        [{'trace_threads': True}, {'statement': 'C', 'trace_modules': True}, {}],
+        [{'statement': 'A'}, {'statement': 'A', 'run_no_start_from': 3}, {'run_no_start_from': 3}],
+    ]
+    for i, seq in enumerate(seqs):
+        steps = START + one_run()
+        for o in seq:
+            steps += [['call', 'A', 'reset', o], settle()] + one_run()
+        steps += [['sample']]
+        out.append(S(steps, dict(family='numbering', seq=i)))
     return out
 
 
@@ -225,6 +254,16 @@ def continuous():
     # run_continue_and_wait accepted
     steps = START + [['call', 'W', 'run_continue_and_wait'], settle(0.4)] + en + [['child', 'return'], ['await', 'W', 8.0], settle()] + en + [['sample']]
     out.append(S(steps, dict(family='continuous', case='wait-variant-accepted'), config={'answer': None}))
+    # two requests waiting on the lock at the same time behind a plain run that is starting; both refused
+    steps = START + [['hold', 'on_start_run'], ['call', 'A', 'run'], settle(0.3), ['call', 'B', 'run_and_continue'], settle(0.1),
+                     ['call', 'C', 'run_and_continue'], settle(0.1), ['release_all'], settle(0.5)] + en + \
+        [['sample'], ['call', 'A', 'send', {'command': 'continue', 'prompt_no': 1, 'trace_no': 1}], settle(0.3), ['child', 'return'], settle(0.4)] + en + \
+        [['call', 'A', 'reset'], settle()] + en + [['sample']]
+    out.append(S(steps, dict(family='continuous', case='two-requests-refused-together'), config={'answer': None}))
+    # a continuous run in progress, a third request refused, then the run finishes
+    steps = START + [['call', 'A', 'run_and_continue'], settle(0.4)] + en + [['call', 'B', 'run_and_continue'], settle(0.2)] + en + \
+        [['call', 'C', 'run_continue_and_wait'], settle(0.2)] + en + [['child', 'return'], settle(0.4)] + en + [['sample']]
+    out.append(S(steps, dict(family='continuous', case='refused-during-continuous-run'), config={'answer': None}))
     # refused while a close is waiting for the interactive run
     steps = START + [['call', 'A', 'run'], settle(0.4), ['call', 'B', 'close'], settle(0.2), ['call', 'C', 'run_and_continue'], settle(0.3), ['sample'],
                      ['call', 'D', 'send', {'command': 'next', 'prompt_no': 1, 'trace_no': 1}], settle(0.5), ['sample'],
